@@ -155,6 +155,10 @@ class Interp:
             return v == self.eval(pat.value, env)
         if isinstance(pat, ast.MatchOr):
             return any(self.matches(q, v, env, f) for q in pat.patterns)
+        if isinstance(pat, ast.MatchSequence) and not any(isinstance(q, ast.MatchStar) for q in pat.patterns):
+            if not isinstance(v, (tuple, list)) or len(v) != len(pat.patterns):
+                return False
+            return all(self.matches(q, x, env, f) for q, x in zip(pat.patterns, v))
         if isinstance(pat, ast.MatchClass) and not pat.patterns:
             name = src(pat.cls).split(".")[-1]
             if name in ("int", "bool") :
